@@ -402,6 +402,139 @@ pub fn perm_lists() -> Vec<Option<String>> {
     out
 }
 
+/// A command that was refused must stay without effect when its session ends, too: the end of a connection makes the
+/// node act on what the session was (subscriptions, the database it selected, the cluster member it said it was). One
+/// node (a secondary that knows its primary and another secondary) with its real TCP / WebSocket servers; per case a
+/// connection that presents a credential or none, sends one administrator / cluster command, and ends (closed or
+/// reset). Observed before and after: the member list, the role, what the node's threads handed to the supervisor and
+/// (for sessions that never selected a database) to the replication loop.
+fn sessions_that_end(v: &Verdicts, thorough: bool) -> serde_json::Value {
+    use crate::transports::{LiveNode, TcpClient, WsClient};
+    use std::sync::atomic::Ordering;
+    use std::time::{Duration, Instant};
+    let dir = fresh_dir("c09-end");
+    let ln = match LiveNode::start(&dir, false) {
+        Some(l) => l,
+        None => {
+            v.inconclusive("could not bind loopback ports");
+            return json!({"cases": 0});
+        }
+    };
+    let (primary, other) = ("10.1.1.1:3014", "10.1.1.2:3014");
+    let mut rxs = vec![];
+    for (name, role) in [(primary, nundb::bo::ClusterRole::Primary), (other, nundb::bo::ClusterRole::Secoundary)] {
+        let (tx, rx) = futures::channel::mpsc::channel::<String>(10_000);
+        ln.dbs.add_cluster_member(nundb::bo::ClusterMember { name: name.to_string(), role, sender: Some(tx) });
+        rxs.push(rx);
+    }
+    ln.dbs.node_state.store(nundb::bo::ClusterRole::Secoundary as usize, Ordering::SeqCst);
+    let observe = |ln: &LiveNode| -> (String, usize, usize, u64) {
+        let members = {
+            let cs = ln.dbs.cluster_state.lock().unwrap();
+            let m = cs.members.lock().unwrap();
+            let mut l: Vec<String> = m.iter().map(|(k, mem)| format!("{}={}", k, mem.role as usize)).collect();
+            l.sort();
+            l.join(",")
+        };
+        (members, ln.dbs.node_state.load(Ordering::SeqCst), ln.sup_log.lock().unwrap().len(), ln.repl_msgs.load(Ordering::Relaxed))
+    };
+    let settle = |ln: &LiveNode| {
+        // until nothing has moved for 60 ms (at most 2 s)
+        let deadline = Instant::now() + Duration::from_secs(2);
+        let mut last = observe(ln);
+        let mut since = Instant::now();
+        while Instant::now() < deadline {
+            std::thread::sleep(Duration::from_millis(10));
+            let now = observe(ln);
+            if now != last {
+                last = now;
+                since = Instant::now();
+            } else if since.elapsed() > Duration::from_millis(60) {
+                break;
+            }
+        }
+    };
+    let mut cmds: Vec<String> = vec![];
+    for n in [primary, other, &ln.tcp.clone(), "10.9.9.9:3014"] {
+        for w in ["set-primary", "set-secoundary", "join", "leave", "replicate-join", "replicate-leave", "election candidate 1", "election win", "election alive", "replicate-since"] {
+            cmds.push(if w == "replicate-since" { format!("{} {} 0", w, n) } else { format!("{} {}", w, n) });
+        }
+    }
+    for c in ["election win", "debug force-election", "snapshot false db", "create-db zz t", "create-user q t", "arbiter", "watch $$secret", "auth admin wrong", "auth wrong pwd", "cluster-state", "ack 1 10.1.1.2:3014"] {
+        cmds.push(c.to_string());
+    }
+    let creds: [(&str, Vec<&str>); 3] = [("none", vec![]), ("db-token", vec!["use-db db tok"]), ("user-token", vec!["use-db db u utok"])];
+    let (mut cases, mut acted) = (0u64, 0u64);
+    let mut words = BTreeSet::new();
+    let rounds = if thorough { 4 } else { 1 };
+    for round in 0..rounds {
+        for (ci, cmd) in cmds.iter().enumerate() {
+            for (cname, login) in creds.iter() {
+                for transport in ["tcp-close", "tcp-reset", "ws"] {
+                    if transport == "ws" && (ci + round) % 4 != 0 {
+                        continue;
+                    }
+                    settle(&ln);
+                    let before = observe(&ln);
+                    if transport == "ws" {
+                        if let Ok(mut c) = WsClient::connect(&ln.ws) {
+                            for l in login.iter() {
+                                c.send_text(l);
+                            }
+                            c.send_text(cmd);
+                            let _ = c.read_until("\u{1}never", Duration::from_millis(30));
+                            if ci % 2 == 0 { c.close() } else { c.reset() }
+                        } else {
+                            continue;
+                        }
+                    } else {
+                        match TcpClient::connect(&ln.tcp) {
+                            Ok(mut c) => {
+                                for l in login.iter() {
+                                    c.send(format!("{}\n", l).as_bytes());
+                                }
+                                c.send(format!("{}\n", cmd).as_bytes());
+                                // the reply to the last line (ok / error ...), then the end
+                                let _ = c.read_for(Duration::from_millis(25));
+                                if transport == "tcp-reset" {
+                                    let _ = nix_linger_zero(&c.s);
+                                }
+                                drop(c);
+                            }
+                            Err(_) => continue,
+                        }
+                    }
+                    // the handler sees the end of the connection some time later
+                    std::thread::sleep(Duration::from_millis(15));
+                    settle(&ln);
+                    let after = observe(&ln);
+                    cases += 1;
+                    words.insert(cmd.split(' ').next().unwrap().to_string());
+                    let new_sup: Vec<String> = ln.sup_log.lock().unwrap()[before.2..].to_vec();
+                    let changed = before.0 != after.0 || before.1 != after.1 || !new_sup.is_empty() || (*cname == "none" && before.3 != after.3);
+                    if changed {
+                        acted += 1;
+                        let what = if !new_sup.is_empty() { format!("supervisor-told:{}", new_sup[0].split(' ').next().unwrap_or("")) } else if before.0 != after.0 { "member-list-changed".to_string() } else if before.1 != after.1 { "role-changed".to_string() } else { "cluster-message-queued".to_string() };
+                        v.report(json!({"check": "session-end", "problem": "refused-command-acted-when-its-session-ended", "word": cmd.split(' ').next().unwrap(), "credential": cname, "effect": what}),
+                            json!({"transport": transport, "login": login, "command": cmd, "members_before": before.0, "members_after": after.0, "role_before": before.1, "role_after": after.1, "told_to_supervisor": new_sup, "replication_messages": [before.3, after.3]}));
+                        // put the node back the way it was
+                        ln.dbs.node_state.store(nundb::bo::ClusterRole::Secoundary as usize, Ordering::SeqCst);
+                    }
+                }
+            }
+        }
+    }
+    drop(rxs);
+    json!({"cases": cases, "cases_in_which_the_node_acted": acted, "command_words": words.len(), "credentials": ["none", "db-token", "user-token"], "ends": ["tcp close", "tcp reset", "websocket close / reset"]})
+}
+
+fn nix_linger_zero(s: &std::net::TcpStream) -> std::io::Result<()> {
+    use std::os::unix::io::AsRawFd;
+    let l = libc::linger { l_onoff: 1, l_linger: 0 };
+    let r = unsafe { libc::setsockopt(s.as_raw_fd(), libc::SOL_SOCKET, libc::SO_LINGER, &l as *const _ as *const libc::c_void, std::mem::size_of::<libc::linger>() as u32) };
+    if r == 0 { Ok(()) } else { Err(std::io::Error::last_os_error()) }
+}
+
 pub fn run(tier: &str) -> i32 {
     quiet_panics();
     std::env::set_var("NUN_ELECTION_TIMEOUT", "10");
@@ -478,6 +611,8 @@ pub fn run(tier: &str) -> i32 {
     let mut iso_rng = Rng::new(seed() ^ 0x150c09);
     let iso = crate::transports::session_isolation(&v, false, &mut iso_rng, if tier == "thorough" { 400 } else { 40 });
     ev.set("sessions_over_real_transports", iso.to_json());
+    let ended = sessions_that_end(&v, thorough);
+    ev.set("sessions_that_end_over_real_transports", ended);
     ev.evaluations = st.cells;
     ev.distinct_nontrivial = st.distinct.len() as u64;
     ev.exhaustive = Some(true);
